@@ -180,9 +180,37 @@ PROPS = {
                    'persistence of collections is a property of rpds.',
         not_decided=['slice/reverse/sort/collect/unbox/concat/join/foreach', 'persistence (rpds)', 'map literal / builder words'],
     ),
+    'C06': dict(
+        title='Parsing cursor: a read returns exactly the requested bits and advances that far',
+        verus_units=['cursor', 'bitstr'],
+        kani_groups=[],
+        design_ref='DESIGN.md section 5 / C06',
+        technique='Verus contracts on the cursor words of src/bitstr_ext.rs over a ghost cursor (input, offset, stash read out of their heap cells), '
+                  'with the bit-string and stack/variable primitives in their assumed renderings (proved in their own units)',
+        level_text='Proved for all inputs, offsets and (huge, negative) arguments: peek/read of n bits returns exactly bits [offset, offset+n) and moves the offset by n; '
+                   'a failing read, an out-of-range seek, a width over the integer range or a refused push leave input, offset and data stack untouched; the offset stays inside '
+                   'the input so remain == end - offset; uN/iN/int/uint/fN decode exactly the bits read in the given byte order; open-bitstr stashes (input, offset) and close-bitstr '
+                   'restores them exactly, LIFO (lemma over the two contracts).',
+        level_note='Assumed: contracts of Bitstr::{start,end,len,seek,substr,read,...} (proved in units/bitstr.rs), of push/pop/get_var/set_var (units/state.rs), of the tag words '
+                   '(units/cell.rs), rpds map laws (lookup after insert / in empty map); the numeric value of the decoded bits is the Kani-decided C05. Modest sizes: input end < usize::MAX. '
+                   'NOT decided: magic (pattern closure), find (memmem), nulbytestr/cstr (iter8 in a for loop), dump.',
+        not_decided=['magic', 'find', 'nulbytestr / cstr', 'dump / dump-at'],
+    ),
+    'C07': dict(
+        title='Binary construction is the inverse of binary parsing',
+        verus_units=['bitstr', 'cursor'],
+        kani_groups=['codec.rs'],
+        design_ref='DESIGN.md section 5 / C07',
+        technique='Verus lemma over the contracts of append and read (any lengths, any alignments) + Kani composition family (three fields of concrete widths, symbolic values) + Verus contracts on the pack / append words',
+        level_text='Bit-string layer, proved unbounded: reading |a| bits from a++b returns a and leaves b, lengths add up (so by induction any field list parses back). '
+                   'Kani family: three integer fields packed, concatenated and parsed back in the same byte order return the values (mod width / sign-extended) and leave 0 bits, '
+                   'for widths that put the 2nd and 3rd field at every bit alignment. Word layer: uN!/iN!/int!/uint! push a bit-string of exactly n bits denoting the value; bitstr-append concatenates.',
+        level_note='NOT decided: >bitstr over nested vectors (rpds iteration), emit/output/output-length (update_var closure), strings and byte lists, floats in the composition family.',
+        not_decided=['>bitstr (bitstr_concat)', 'emit / output / output-length', 'float and string fields'],
+    ),
     'C08': dict(
         title='No source text, input or API call sequence can crash the interpreter',
-        verus_units=['bitstr', 'state', 'compile', 'cell', 'arith', 'collections'],
+        verus_units=['bitstr', 'state', 'compile', 'cell', 'arith', 'collections', 'cursor'],
         kani_groups=['state_idx.rs', 'codec.rs'],
         design_ref='DESIGN.md section 5 / C08',
         technique='panic freedom of exactly the functions under contract: Verus checks every arithmetic operation for overflow, every index, unwrap, division, unreachable!/panic! site; Kani runs with overflow/bounds checks',
@@ -200,8 +228,8 @@ NOT_APPLICABLE = {
     'C03': 'clone independence is an aliasing property between two objects over later histories; Verus models Rc without identity/sharing and any Kani harness holding a State did not finish (>15 min): no contract within reach can express it',
     'C16': 'the lexer is str/char/parse code outside the Verus dialect and too heavy for Kani (Tok carries a Cell); printing goes through fmt; the bit-literal builder is covered under C04',
     'C18': 'the round-trip law lives entirely in the external base32/base64/z85 crates; assuming it would make the wrappers verify vacuously; the xeh-owned byte export is a C04 obligation',
- 'C05': 'unit not built yet in this round', 'C06': 'unit not built yet in this round',
-    'C07': 'unit not built yet in this round',
+ 'C05': 'unit not built yet in this round',
+
 
 
 
